@@ -73,10 +73,10 @@ class AioImpl:
             return ("none",)
         if o[0] == "DELJOBS":
             tags = None if o[1] is None else {tagname(t) for t in o[1]}
-            return ("int", sch.delete_jobs(tags, o[2]))
+            return ("int", sch.delete_jobs(tags, o[2]) if o[2] else sch.delete_jobs(tags))
         if o[0] == "GETJOBS":
             tags = None if o[1] is None else {tagname(t) for t in o[1]}
-            res = sch.get_jobs(tags, o[2])
+            res = sch.get_jobs(tags, o[2]) if o[2] else sch.get_jobs(tags)
             ids = sorted(self.job_id(j) for j in res)
             res.clear()
             return ("ids", ids)
@@ -176,7 +176,7 @@ class AioImpl:
                     coro = core.Holder(sch, coro).call
                 kw = dict(max_attempts=c["max"], tags={tagname(t) for t in c["tags"]}, skip_missing=c["skip"],
                           args=tuple(core.Val(a) for a in c["args"]) if c["args"] else None,
-                          kwargs={"k%d" % kk: core.Val(v) for kk, v in c["kwargs"]} if c["kwargs"] else None)
+                          kwargs={"k%d" % kk: core.Val(v) for kk, v in c["kwargs"]} if c["kwargs"] else ({} if jid % 3 == 0 else None))
                 self.sent[jid] = (kw["args"], dict(kw["kwargs"]) if kw["kwargs"] else None)
                 if not c["delay"]:
                     kw["delay"] = False
@@ -206,6 +206,7 @@ class AioImpl:
                     kw["tags"].add("t99")
                 handed = job.tags
                 handed.add("t98")
+                handed.add(tagname(1 + jid % 3))
                 self.jobs[jid] = job
                 self.tasks[jid] = sch._jobs.get(job)
                 res = ("job", jid)
